@@ -337,7 +337,7 @@ func randUSpec(r *rand.Rand, i int) USpec {
 	case 0:
 		s.Key = fmt.Sprintf("rsa%d", r.Intn(2))
 	case 1:
-		s.Key = fmt.Sprintf("wrap%d", r.Intn(6))
+		s.Key = fmt.Sprintf("wrap%s%d", []string{"", "U", "R"}[r.Intn(3)], r.Intn(6))
 	default:
 		s.Key = fmt.Sprintf("ed%d", r.Intn(12))
 	}
